@@ -156,6 +156,19 @@ func c04Slice(c *Ctx, k int) {
 	size := len(kept)
 	L := c.R.Range(2, 5)
 	scheme := schemes[k%len(schemes)]
+	if k%4 == 3 { // long passwords over a short list: every position / coin far beyond any machine-word width
+		words = words[:20]
+		wl, _ = spg.NewWordList(words)
+		kept, titled = map[string]bool{}, map[string]bool{}
+		for _, w := range words {
+			kept[w] = true
+			titled[oracle.Title(w)] = true
+		}
+		size = 20
+		L = c.R.Range(33, 70)
+		scheme = []string{"one", "random"}[(k/4)%2]
+		name = fmt.Sprintf("20-word list, Length %d", L)
+	}
 	rec := spg.NewWLRecipe(L, wl)
 	rec.Capitalize = spg.CapScheme(scheme)
 	rec.SeparatorChar = "|"
